@@ -111,6 +111,8 @@ type G struct {
 	W        *world.World
 	n        int
 	Excluded map[string]int
+	theme    int // 0 = not drawn yet, -1 = none, k+1 = bundle k is this world's recurring feature
+	themePct int // share of the ingresses that carry the theme
 }
 
 func newG(t *rapid.T, p Profile) *G {
@@ -295,8 +297,13 @@ func (g *G) genIngress(ns, name string, created int) *world.Obj {
 			o.TLS = append(o.TLS, t)
 		}
 	}
-	if len(g.P.Bundles) > 0 && g.chance("bundle", g.P.BundlePct) {
+	g.drawTheme()
+	useTheme := g.theme > 0 && g.chance("usetheme", g.themePct)
+	if useTheme || (len(g.P.Bundles) > 0 && g.chance("bundle", g.P.BundlePct)) {
 		b := g.P.Bundles[g.intn("whichbundle", 0, len(g.P.Bundles)-1)]
+		if useTheme {
+			b = g.P.Bundles[g.theme-1]
+		}
 		if o.Ann == nil {
 			o.Ann = map[string]string{}
 		}
@@ -338,6 +345,23 @@ func (g *G) secretNames() []string {
 	return names
 }
 
+// drawTheme decides once per world whether it has a recurring feature ("theme"): several
+// ingresses then share userlists, auth backends, tcp ports, ... which is where the
+// cross-object bookkeeping is exercised.
+func (g *G) drawTheme() {
+	if len(g.P.Bundles) > 0 && g.theme == 0 {
+		g.theme, g.themePct = -1, 55
+		if g.chance("hastheme", 60) {
+			g.theme = 1 + g.intn("theme", 0, len(g.P.Bundles)-1)
+			if g.chance("focused", 40) {
+				// focused world: one namespace, nearly every ingress carries the feature
+				g.P.NS = g.P.NS[:1]
+				g.themePct = 90
+			}
+		}
+	}
+}
+
 // classify sets the class selection of an ingress.
 func (g *G) classify(o *world.Obj) {
 	if !g.P.Classes {
@@ -374,6 +398,7 @@ func (g *G) classify(o *world.Obj) {
 
 // genWorld builds an initial world.
 func (g *G) genWorld() {
+	g.drawTheme()
 	g.add(&world.Obj{Kind: world.KIngressClass, Name: world.OurClass, Controller: world.ControllerName})
 	if g.P.Classes {
 		g.add(&world.Obj{Kind: world.KIngressClass, Name: "other", Controller: "example.com/other"})
@@ -969,6 +994,17 @@ func richProfile() Profile {
 	return p
 }
 
+// podFor is the Pod object behind an endpoint address.
+func podFor(ns, svc string, a world.Addr, i int) *world.Obj {
+	lb := map[string]string{"app": ns + "-" + svc}
+	if i%2 == 0 {
+		lb["group"] = "blue"
+	} else {
+		lb["group"] = "green"
+	}
+	return &world.Obj{Kind: world.KPod, NS: ns, Name: a.Pod, Labels: lb, PodIP: a.IP, UID: "uid-" + ns + "-" + a.Pod, ContPorts: []world.SvcPort{{Name: "web", Port: 8443}}}
+}
+
 // genRichExtras adds objects the rich profile refers to (CA secret, pods, tcp ConfigMap).
 func (g *G) genRichExtras() {
 	for _, ns := range g.P.NS {
@@ -982,13 +1018,7 @@ func (g *G) genRichExtras() {
 					if a.Pod == "" || g.W.Get(world.KPod, ns+"/"+a.Pod) != nil {
 						continue
 					}
-					lb := map[string]string{"app": ns + "-" + ep.Name}
-					if i%2 == 0 {
-						lb["group"] = "blue"
-					} else {
-						lb["group"] = "green"
-					}
-					g.add(&world.Obj{Kind: world.KPod, NS: ns, Name: a.Pod, Labels: lb, PodIP: a.IP, UID: "uid-" + ns + "-" + a.Pod, ContPorts: []world.SvcPort{{Name: "web", Port: 8443}}})
+					g.add(podFor(ns, ep.Name, a, i))
 				}
 			}
 		}
